@@ -37,8 +37,9 @@ def mk_story(major, nk, expect, login, invpw, order, together, password, tail=No
                          **({"tail": tail} if tail else {}))}
 
 
-NAMES = {"e": "", "x": "dev", "o": "other-device", "p": "dev2", "q": "de", "c": "DEV", "-": None}
-OTHER_NAMES = "opqc"
+NAMES = {"e": "", "x": "dev", "o": "other-device", "p": "dev2", "q": "de", "c": "DEV", "-": None,
+         "l": "another-device-whose-name-is-longer-than-thirty-one-characters"}
+OTHER_NAMES = "opqcl"
 
 
 def oracle(case):
@@ -169,6 +170,38 @@ async def noise_case(loop, case):
     return out, state, stops
 
 
+async def client_login_case(loop, password, invalid):
+    from aioesphomeapi import api_pb2 as pb
+    from aioesphomeapi.client import APIClient
+    net = simnet.Net(loop)
+    with net.patched():
+        cli = APIClient("10.0.0.1", 6053, password)
+        try:
+            await cli.start_connection()
+            task = asyncio.ensure_future(cli.finish_connection(login=True))
+            await simnet.drain(loop)
+            tr = net.transports[-1]
+            tr.feed(simnet.plain_msg(pb.HelloResponse(api_version_major=1, api_version_minor=10, name="dev")))
+            tr.feed(simnet.plain_msg(pb.ConnectResponse(invalid_password=invalid)))
+            await simnet.drain(loop)
+            if not task.done():
+                task.cancel()
+                out = "pending"
+            elif task.exception() is None:
+                out = "ok"
+            else:
+                out = conntrace.exc_name(task.exception())
+        except Exception as e:  # noqa: BLE001
+            out = conntrace.exc_name(e)
+        writes = [ty for tr in net.transports for _, d in tr.writes for ty, _ in simnet.decode_plain_stream(d)]
+        try:
+            await cli.disconnect(force=True)
+        except Exception:  # noqa: BLE001
+            pass
+        await simnet.drain(loop)
+    return out, writes
+
+
 async def client_attempts_case(loop, names, expected):
     """Consecutive plaintext connect attempts of one APIClient against devices announcing `names`."""
     from aioesphomeapi import api_pb2 as pb
@@ -224,7 +257,7 @@ def run(rep, tier, seed):
     ok, log = common.build_driver()
     if not ok:
         raise RuntimeError("driver build failed: " + log[-2000:])
-    cases = [mk_story(*c) for c in itertools.product(MAJORS, "exopqc", (0, 1), (0, 1), (0, 1), ORDERS, (1, 0), (None, "pw"))]
+    cases = [mk_story(*c) for c in itertools.product(MAJORS, "exopqcl", (0, 1), (0, 1), (0, 1), ORDERS, (1, 0), (None, "pw"))]
     if tier == "quick":
         cases = rng.sample(cases, 500)
     # refusals followed at once by the loss of the connection: the specific error still is what connect raises
@@ -258,7 +291,7 @@ def run(rep, tier, seed):
             if dis or problems:
                 disagreements.append({"case": case, "disagreement": dis})
     ncases = [dict(server_name=sn, name=nk, expect=ex, login=lg, invalid_password=ip, major=mj, password=pw)
-              for sn, nk, ex, lg, ip, mj, pw in itertools.product("-exopqc", "exopqc", (0, 1), (0, 1), (0, 1), (1, 3), (None, "pw"))]
+              for sn, nk, ex, lg, ip, mj, pw in itertools.product("-exopqcl", "exopqcl", (0, 1), (0, 1), (0, 1), (1, 3), (None, "pw"))]
     if tier == "quick":
         ncases = rng.sample(ncases, 260)
     for case in ncases:
@@ -290,6 +323,19 @@ def run(rep, tier, seed):
                           f"the name rule gives {want}", replay)
         elif any(r != expected for r in reads):
             rep.violation("C06/expected-name-changed", f"APIClient.expected_name configured as {expected!r} reads {reads} after the attempts against {names}", replay)
+    # ---- the login verdict through the public client, with and without a configured password
+    for password in (None, "", "pw"):
+        for invalid in (True, False):
+            out, writes = simnet.run(lambda loop: client_login_case(loop, password, invalid))
+            want = "L.InvalidAuth" if invalid else "ok"
+            rep.case(("client-login", password, invalid), nontrivial=invalid, sample={"client_login_password": password, "device_says_invalid": invalid, "outcome": out})
+            rep.bump("client-login")
+            replay = {"kind": "impl-case", "transport": "plaintext", "variant": "client-login", "password": password, "invalid": invalid}
+            if out != want:
+                rep.violation("C06/client-login", f"APIClient(password={password!r}).finish_connection(login=True), the device answers ConnectResponse(invalid_password={invalid}): "
+                              f"ended {out}, expected {want}", replay)
+            elif 3 not in writes:
+                rep.violation("C06/client-login", f"APIClient(password={password!r}).finish_connection(login=True) did not send a ConnectRequest (ids written: {writes})", replay)
     rep.coverage["disagreements"] = len(disagreements)
     if disagreements and not rep.violations:
         rep.violations.append(("C06/correspondence", "Model/Conn.v and the real APIConnection disagree on a hello/login story; no violation of C06 found",
